@@ -160,14 +160,51 @@ pub async fn liquidation(w: &mut World, m: &mut Mon, r: &mut R, lev: &Lev, lq: u
     scale_price_any(w, lev.ca, shock).await;
     let lk = w.auth_of(lq);
     // keep lowering the collateral price until the account just becomes liquidatable
+    let pyth_key = match w.banks[lev.ca].oracle.clone() {
+        OracleD::Pyth(k) | OracleD::Venue { oracle: k, .. } => Some(k),
+        _ => None,
+    };
+    let (mut healthy_at, mut unhealthy_at): (Option<PythPx>, Option<PythPx>) = (None, None);
     for _ in 0..14 {
         let i = w.ix_liquidate(lq, lev.acct, lev.ca, lev.db, lk.pubkey(), 1);
         let o = w.probe(m, &[i], &[&lk]).await;
         if o.custom_code() == Some(crate::mon::err::HEALTHY_ACCOUNT) {
+            healthy_at = pyth_key.map(|k| w.pyth[&k]);
             scale_price_any(w, lev.ca, pick(r, &[0.95f64, 0.9, 0.8])).await;
         } else {
+            if o.ok() {
+                unhealthy_at = pyth_key.map(|k| w.pyth[&k]);
+            }
             break;
         }
+    }
+    // locate the exact price at which the account turns liquidatable: every accepted probe on the
+    // way is judged by the monitor, so an acceptance on the healthy side of zero shows up
+    if let (Some(k), Some(hp), Some(up)) = (pyth_key, healthy_at, unhealthy_at) {
+        let (mut hi, mut lo) = (hp.price, up.price);
+        let mut steps = 0;
+        while hi - lo > 1 && steps < 48 {
+            steps += 1;
+            let mid = lo + (hi - lo) / 2;
+            let f = mid as f64 / hp.price as f64;
+            let now = w.chain.now();
+            w.set_pyth(&k, PythPx { price: mid, conf: (hp.conf as f64 * f) as u64, ema: ((hp.ema as f64 * f) as i64).max(1), ema_conf: (hp.ema_conf as f64 * f) as u64, publish_time: now, ..hp });
+            let i = w.ix_liquidate(lq, lev.acct, lev.ca, lev.db, lk.pubkey(), 1);
+            let o = w.probe(m, &[i], &[&lk]).await;
+            if o.custom_code() == Some(crate::mon::err::HEALTHY_ACCOUNT) {
+                hi = mid;
+            } else if o.ok() {
+                lo = mid;
+            } else {
+                break;
+            }
+        }
+        if hi - lo <= 1 {
+            m.r.count("scen.liquidatable_price_boundary_found");
+        }
+        let f = lo as f64 / hp.price as f64;
+        let now = w.chain.now();
+        w.set_pyth(&k, PythPx { price: lo, conf: (hp.conf as f64 * f) as u64, ema: ((hp.ema as f64 * f) as i64).max(1), ema_conf: (hp.ema_conf as f64 * f) as u64, publish_time: now, ..hp });
     }
     // make sure the liquidator can afford it
     for b in [lev.db, lev.ca] {
